@@ -10,10 +10,9 @@
     `edges_to_split`: `min_x ≤ x ≤ max_x + threshold`, `y ≤ to.y`;
   * `splitEdge_parameter_bound`: the two combined, for an active edge that starts at or above the current
     vertex (`from.y ≤ y`: an active edge starts at an earlier event);
-  * the PROPOSED REPAIR (`fixes/C07-split-parameter-beyond-edge-end.patch`), as functions `splitTFixed`
-    (fall back to the y-parameter when the x-parameter leaves `[0,1]`) and `endsWithin` (the guard added to
-    `handle_coincident_edges_below`): `splitTFixed_unit`, `merge_guard_unit` - the parameters of the patched
-    code are in `[0,1]`.
+  * the REPAIR (lyon 96af7b62, mirrored in the model): `Sources.splitTAtVertex` (fall back to the y-parameter when the
+    x-parameter leaves `[0,1]`) and the guard `endsWithin` of `handleCoincidentEdgesBelow` (`endsWithin_iff_model`):
+    `splitTAtVertex_unit`, `splitTAtVertex_unit_flat`, `merge_guard_unit` - the parameters of the repaired code are in `[0,1]`.
 -/
 import LyonVerif.Props.C07b
 import Mathlib.Tactic.Linarith
@@ -141,20 +140,23 @@ theorem splitEdge_parameter_bound (cur : P K) (tol : K) (e : ActiveEdge K) (c : 
 
 omit w
 
-/-! ### the proposed repair -/
+/-! ### the repair (lyon 96af7b62, mirrored in the model: `Sources.splitTAtVertex`, used by `Sweep.splitEdge`) -/
 
-/-- `split_edge` of the proposed patch: when the parameter along x leaves `[0,1]` the vertex is located at its
-own y (the point of the edge the on-edge test compared it with), clamped -/
-noncomputable def splitTFixed (a b c : P K) : K :=
-  if |b.y - a.y| < |b.x - a.x| then
-    (if 0 ≤ Sources.solveTForX a b c.x ∧ Sources.solveTForX a b c.x ≤ 1 then Sources.solveTForX a b c.x
-     else Min.min (Max.max (Sources.solveTForY a b c.y) 0) 1)
-  else Sources.solveTForY a b c.y
+/-- `Sources.splitTAtVertex` over an ordered field, in Mathlib's vocabulary -/
+theorem splitTAtVertex_def (a b c : P K) :
+    Sources.splitTAtVertex a b c =
+      if |b.y - a.y| < |b.x - a.x| then
+        (if 0 ≤ Sources.solveTForX a b c.x ∧ Sources.solveTForX a b c.x ≤ 1 then Sources.solveTForX a b c.x
+         else Min.min (Max.max (Sources.solveTForY a b c.y) 0) 1)
+      else Sources.solveTForY a b c.y := by
+  unfold Sources.splitTAtVertex
+  rw [C07.zero_K, C07.one_K]
+  rfl
 
-/-- the patched parameter agrees with the present one whenever that is in `[0,1]` -/
-theorem splitTFixed_eq (a b c : P K) (h : 0 ≤ Sources.splitT a b c ∧ Sources.splitT a b c ≤ 1) :
-    splitTFixed a b c = Sources.splitT a b c := by
-  unfold splitTFixed
+/-- the repaired parameter agrees with the former one (`Sources.splitT`) whenever that is in `[0,1]` -/
+theorem splitTAtVertex_eq (a b c : P K) (h : 0 ≤ Sources.splitT a b c ∧ Sources.splitT a b c ≤ 1) :
+    Sources.splitTAtVertex a b c = Sources.splitT a b c := by
+  rw [splitTAtVertex_def]
   unfold Sources.splitT at h ⊢
   by_cases hb : |b.y - a.y| < |b.x - a.x|
   · have hb' : Scalar.abs (b.y - a.y) < Scalar.abs (b.x - a.x) := hb
@@ -164,23 +166,36 @@ theorem splitTFixed_eq (a b c : P K) (h : 0 ≤ Sources.splitT a b c ∧ Sources
     rw [if_neg hb'] at h ⊢
     rw [if_neg hb]
 
-/-- **the patched `split_edge` parameter is in `[0,1]`** for every active edge that spans the current vertex in
-sweep order (`from.y ≤ y ≤ to.y`), whatever its x -/
-theorem splitTFixed_unit (a b c : P K) (hne : a ≠ b) (hya : a.y ≤ c.y) (hyb : c.y ≤ b.y) :
-    0 ≤ splitTFixed a b c ∧ splitTFixed a b c ≤ 1 := by
-  unfold splitTFixed
+/-- on the x-branch (edge flatter than 45 degrees) the repaired parameter is in `[0,1]` UNCONDITIONALLY -/
+theorem splitTAtVertex_unit_flat (a b c : P K) (hb : |b.y - a.y| < |b.x - a.x|) :
+    0 ≤ Sources.splitTAtVertex a b c ∧ Sources.splitTAtVertex a b c ≤ 1 := by
+  rw [splitTAtVertex_def, if_pos hb]
   split
-  · split
-    · rename_i h; exact h
-    · exact ⟨le_min (le_max_right _ _) zero_le_one, min_le_right _ _⟩
-  · rename_i hb
+  · rename_i h; exact h
+  · exact ⟨le_min (le_max_right _ _) zero_le_one, min_le_right _ _⟩
+
+/-- **the parameter of the repaired `split_edge` is in `[0,1]`** for every non-degenerate active edge that spans
+the current vertex in sweep order (`from.y ≤ y ≤ to.y`), whatever its x -/
+theorem splitTAtVertex_unit (a b c : P K) (hne : a ≠ b) (hya : a.y ≤ c.y) (hyb : c.y ≤ b.y) :
+    0 ≤ Sources.splitTAtVertex a b c ∧ Sources.splitTAtVertex a b c ≤ 1 := by
+  by_cases hb : |b.y - a.y| < |b.x - a.x|
+  · exact splitTAtVertex_unit_flat a b c hb
+  · rw [splitTAtVertex_def, if_neg hb]
     have := C07b.splitT_unit a b c hne (fun h2 => absurd h2 hb) (fun _ => Or.inl ⟨hya, hyb⟩)
     unfold Sources.splitT at this
     have hb' : ¬ Scalar.abs (b.y - a.y) < Scalar.abs (b.x - a.x) := hb
     rwa [if_neg hb'] at this
 
-/-- the guard the patch adds to `handle_coincident_edges_below` (`v = long_to - from`, `s = short_to - from`) -/
+/-- the guard lyon 96af7b62 added to `handle_coincident_edges_below` (`v = long_to - from`, `s = short_to - from`) -/
 def endsWithin (v s : P K) : Prop := |v.x| ≤ |v.y| ∨ (0 ≤ s.x * v.x ∧ |s.x| ≤ |v.x|)
+
+/-- `endsWithin` IS the Boolean the model's `handleCoincidentEdgesBelow` computes (`let endsWithin : Bool := ..`) -/
+theorem endsWithin_iff_model (v sv : P K) :
+    (decide (Scalar.abs v.x ≤ Scalar.abs v.y) || (decide (sv.x * v.x ≥ (Scalar.zero : K)) && decide (Scalar.abs sv.x ≤ Scalar.abs v.x)))
+      = true ↔ endsWithin v sv := by
+  rw [C07.zero_K]
+  simp only [Bool.or_eq_true, Bool.and_eq_true, decide_eq_true_eq, endsWithin, ge_iff_le]
+  rfl
 
 /-- **under the guard the split parameter of `merge_coincident_edges` is in `[0,1]`**: `cur` the current
 position, `long` the end of the edge that ends later in sweep order, `short` the other end (both below `cur`) -/
